@@ -59,6 +59,29 @@ theorem C06_hand_model_tie :
     layouts.all (fun l => handAgrees l.1 l.2.1 l.2.2.1 l.2.2.2.1 l.2.2.2.2.1 l.2.2.2.2.2) = true := by
   decide +kernel
 
+/-- (files, p0, p1, exec, open descriptors, vfork, inheritable descriptors of the launcher): the
+launcher holds descriptors that are NOT close-on-exec at numbers inside `0..n-1` — at a slot marked
+"close", at a listed slot, and both — as a process does whose own stdio is inheritable. -/
+def layoutsInh : List (List Int × Nat × Nat × Nat × List Nat × Bool × List Nat) := [
+  ([M, 4, 4], 5, 6, 0, [0, 1, 2, 4, 5, 6], true, [0]),            -- marker on the launcher's inheritable stdin
+  ([M, M, M], 3, 4, 0, [0, 1, 2, 3, 4], false, [0, 1, 2]),        -- every slot marked, all three inheritable
+  ([5, M, 0], 6, 7, 8, [0, 1, 2, 5, 6, 7, 8], true, [0, 1, 2]),   -- marker between listed slots, exec above
+  ([1, 0, M, M], 7, 8, 0, [0, 1, 2, 3, 7, 8], false, [2, 3]),     -- swap below two marked inheritable slots
+  ([2, M], 0, 1, 3, [0, 1, 2, 3], true, [1]),                     -- the marked slot is the pipe's own number, inheritable
+  ([M], 3, 4, 0, [0, 3, 4], true, [0])]
+
+/-- **C06 (small scope) with a launcher that holds inheritable descriptors inside `0..n-1`**: the
+table at exec is still exactly the caller's list — a slot marked "close" is closed whatever the
+launcher had there (kernel-evaluated on the regenerated child) -/
+theorem C06_small_scope_inheritable :
+    layoutsInh.all (fun l => okLayout l.1 l.2.1 l.2.2.1 l.2.2.2.1 l.2.2.2.2.1 l.2.2.2.2.2.1 l.2.2.2.2.2.2) = true := by
+  decide +kernel
+
+/-- the hand model agrees with the regenerated child on those layouts too -/
+theorem C06_hand_model_tie_inheritable :
+    layoutsInh.all (fun l => handAgrees l.1 l.2.1 l.2.2.1 l.2.2.2.1 l.2.2.2.2.1 l.2.2.2.2.2.1 l.2.2.2.2.2.2) = true := by
+  decide +kernel
+
 /-- the oracle itself, on a reading example: `[5, marker, 0]` means fd0 = file of 5, fd1 closed, fd2 = file of 0 -/
 example : expectTable [5, M, 0] = [(0, 1005), (2, 1000)] := by decide +kernel
 example : layouts.length = 20 := by decide
@@ -67,7 +90,8 @@ example : layouts.length = 20 := by decide
 
 open GoSandbox.Model.FdShuffle GoSandbox.Lemmas.FdShuffle in
 /-- **C06 for every descriptor list** (hand model of the shuffle).  Whatever the launcher's
-descriptor table `t` (all close-on-exec: Go opens everything so), the list `files` (any length; any
+descriptor table `t` (close-on-exec at every number at or above the list length: Go opens everything
+so; below the list length the launcher may hold inheritable descriptors, e.g. its own stdio), the list `files` (any length; any
 order, repeats, gaps; `none` = close marker), the sync pipe and the optional exec descriptor
 (distinct from each other; they may lie anywhere, also inside `0..n-1` or among the listed numbers):
 after the shuffle and `execve`
@@ -76,7 +100,7 @@ after the shuffle and `execve`
 * the pipe and the exec descriptor still refer to their files, at numbers ≥ n (so pass 2 did not
   overwrite them) — `execveat` runs the caller's file and errors can still be reported. -/
 theorem C06_shuffle_exact (t : Table) (files : List (Option Nat)) (pipe : Nat) (exec : Option Nat)
-    (hcx : ∀ k e, t k = some e → e.2 = true) (hne : exec ≠ some pipe) :
+    (hcx : ∀ k e, t k = some e → files.length ≤ k → e.2 = true) (hne : exec ≠ some pipe) :
     (∀ (k f : Nat), files[k]? = some (some f) → atExec (shuffle t files pipe exec).t k = fileAt t f) ∧
     (∀ k : Nat, files[k]? = some none → atExec (shuffle t files pipe exec).t k = none) ∧
     (∀ k, files.length ≤ k → atExec (shuffle t files pipe exec).t k = none) ∧
@@ -124,7 +148,7 @@ theorem C06_shuffle_exact (t : Table) (files : List (Option Nat)) (pipe : Nat) (
         cases htk : t k with
         | none => rfl
         | some v =>
-          have := hcx k v htk
+          have := hcx k v htk hk
           obtain ⟨a, b⟩ := v
           simp only at this
           subst this; rfl
